@@ -352,6 +352,11 @@ class PoolGen:
             self.add("delta", [rng.choice([2, 3]), rng.choice([1, 2])], tag="tensor")
 
         self.scenarios(d)
+        # the public module constants as operands (users pass geometer.I, infty, ... to queries, print them, ...)
+        if rng.random() < 0.5:
+            names = ["I", "J", "infty", "absolute_conic"] if d == 2 else ["infty_plane", "I", "J", "infty"]
+            for nm in rng.sample(names, rng.randint(1, 3)):
+                self.add("const", [nm], tag="const")
         # aliases: sharing chains exist from step 0
         n0 = len(self.recipes)
         for _ in range(rng.randint(2, 5)):
